@@ -70,6 +70,32 @@ def generate(prop: str = 'C06') -> Dict[str, Any]:
         + T.lean_list([str(k) for k in sorted(c._packet_handlers)]) + ')' for c in sorted(aclasses, key=lambda c: c.__name__)]) + '\n'
     out += '\ndef channelHandlers : List Nat :=\n  ' + \
         T.lean_list([str(k) for k in sorted(chan.SSHChannel._packet_handlers)]) + '\n'
+    # the if/elif cascade of _recv_packet: the branch conditions, in order, translated from the AST
+    import translate as TT
+    tree = ast.parse(TT.read_source('asyncssh/connection.py'))
+    f = TT.find_def(tree, 'SSHConnection._recv_packet')
+    chain = None
+    for n in ast.walk(f):
+        if isinstance(n, ast.If) and 'MSG_KEX_FIRST <= pkttype' in ast.unparse(n.test):
+            chain = n
+            break
+    if chain is None:
+        raise TT.Untranslatable('_recv_packet: dispatch cascade not found')
+    env = {n: f'({getattr(const, n)} : Int)' for n in dir(const) if n.startswith('MSG_')}
+    env.update({'pkttype': 't', 'self._strict_kex': '(strict = true)', 'self._recv_encryption': '(recvEnc = true)',
+                'self._auth_complete': '(authComplete = true)'})
+    conds = []
+    cur = chain
+    while True:
+        conds.append(TT.expr_to_lean(cur.test, env))
+        if len(cur.orelse) == 1 and isinstance(cur.orelse[0], ast.If):
+            cur = cur.orelse[0]
+        else:
+            break
+    out += '\n/-- the branch conditions of the `if/elif` cascade of `_recv_packet`, in source order -/\n'
+    for i, c in enumerate(conds):
+        out += f'def cascade{i} (t : Int) (strict recvEnc authComplete : Bool) : Prop :=\n  {c}\n'
+    out += f'def cascadeLen : Nat := {len(conds)}\n'
     out += f'\nend AsyncsshModel.Gen.{prop}\n'
     changed = vlib.write_if_changed(vlib.module_path(f'AsyncsshModel.Gen.{prop}'), out)
     return {'gen_file': f'Gen/{prop}.lean', 'changed': changed, 'kex_classes': len(classes), 'auth_classes': len(aclasses)}
